@@ -672,16 +672,11 @@ Definition link_h (ds : docs) (wf fuel : nat) (st : state) (id : str) : bool * s
           else (true, st1) in
         if negb ok2 then (false, st2)
         else
-          (* BuildInfoPlugin: resource->operator[] of "__build_info" := map, through AsMap() *)
+          (* BuildInfoPlugin: Cow(resource, "__build_info")->AsMap() creates the map
+             through the copy-on-write reference (the root map is copied) *)
           let st3 :=
-            match as_map st2 (res_root st2 id) with
-            | Some (ra, _) =>
-                let '(b, s') := alloc st2 (HMap []) in heap_map_set s' ra s_build_info (Some b)
-            | None =>
-                let '(b, s') := alloc st2 (HMap []) in
-                let '(ra, s'') := alloc s' (HMap [(s_build_info, Some b)]) in
-                set_root s'' id (Some ra)
-            end in
+            let '(b, s') := alloc st2 (HMap []) in
+            fst (set_item s' (cow (RRes id) s_build_info) (Some b)) in
           (true, st3)
   end.
 
